@@ -182,6 +182,24 @@ func gen(tier string, r *lib.Rand, emit func(string)) {
 	}
 	rec(nil)
 
+	// (a') signed alphabet: every sequence of length <= 4 over {-9,-8,-5,-4,-3,-2,-1,0,1,2,3,4,8}
+	// (magnitudes of different bit lengths, both signs): the orderings and sums of negative
+	// elements are part of "every finite sequence of integers"
+	signed := []int64{-9, -8, -5, -4, -3, -2, -1, 0, 1, 2, 3, 4, 8}
+	var recs func(cur []int64)
+	recs = func(cur []int64) {
+		if len(cur) > 0 {
+			emitAllFor(emit, enc64(cur), len(cur), big.NewInt(cur[len(cur)-1]), true)
+		}
+		if len(cur) == 4 || (len(cur) >= 1 && cur[0] != 1 && len(cur) == 3) {
+			return
+		}
+		for _, v := range signed {
+			recs(append(cur, v))
+		}
+	}
+	recs(nil)
+
 	// (b) every ascending valid chain up to chainLen; every order of those up to permLen,
 	// a sample of orders beyond; also with the 1 moved off the front
 	for n := 1; n <= chainLen; n++ {
